@@ -1162,7 +1162,8 @@ PROP_THEOREMS = {
             "C03_stored_streams_through_vector_and_slice_entry_points_partial",
             "C03_stored_block_streams_any_output_placement_partial"],
     "C04": ["C04_bad_zlib_header_never_accepted", "C04_rejected_iff_rfc_invalid", "C04_prefix_of_stored_stream_partial",
-            "C04_reserved_block_type_never_accepted_partial", "C04_stored_length_check_never_accepted_partial"],
+            "C04_reserved_block_type_never_accepted_partial", "C04_stored_length_check_never_accepted_partial",
+            "C04_truncated_without_more_input_flag_partial"],
     "C05": ["C05_bad_geometry_is_param_error", "C05_failure_is_absorbing", "C05_counts_within_bounds",
             "C05_returns_on_stored_streams_partial"],
     "C06": ["C06_undo_leaves_less_than_a_byte", "C06_stored_streams_consumed_exactly_partial"],
